@@ -43,6 +43,7 @@ def _template_nodes(job):
 def _worker(args):
     w, metrics, knobs, d = args[:4]
     prelude = args[4] if len(args) > 4 else None
+    large = args[5] if len(args) > 5 else None      # {"min_assign":, "max_total":}: formula oracle, results reduced here
     try:
         import functools, operator
         import numpy as np
@@ -104,6 +105,35 @@ def _worker(args):
                 continue
             templates.append({"id": "%d" % i, "syms": syms, "bound": bound, "outer": outer})
             payload["%d" % i] = {"nodes": nodes, "syms": syms, "p": p}
+        if large:
+            # keep templates whose number of perfect assignments is in the regime asked for; spread the budget evenly
+            def nchains(sym_list, bound_of):
+                import functools
+                @functools.lru_cache(None)
+                def cnt(b, k):
+                    return 1 if k == 0 else sum(cnt(dv, k - 1) for dv in range(1, b + 1) if b % dv == 0)
+                return cnt
+            def n_assign(t):
+                per_rv = {}
+                for s_ in t["syms"]:
+                    root = s_
+                    while t["outer"][root]:
+                        root = t["outer"][root]
+                    per_rv.setdefault(root, []).append(s_)
+                n = 1
+                cnt = nchains(None, None)
+                for root, ss in per_rv.items():
+                    n *= cnt(t["bound"][root], len(ss))
+                return n
+            sized = [(n_assign(t), t) for t in templates]
+            big = [(n, t) for n, t in sized if n >= large["min_assign"]]
+            budget, picked, tot = large["max_total"], [], 0
+            step = max(1, int(sum(n for n, _ in big) / max(budget, 1)) + (1 if sum(n for n, _ in big) > budget else 0))
+            for i, (n, t) in enumerate(big):
+                if i % step == 0 and tot + n <= budget:
+                    picked.append(t); tot += n
+            n_big = len(big)
+            templates = picked
         tp = os.path.join(d, tag + "_templates.json")
         json.dump(templates, open(tp, "w"))
         states = gen = 0
@@ -116,6 +146,46 @@ def _worker(args):
             states, gen = res.distinct, res.generated
             for r in res.records:
                 asg.setdefault(r["id"], []).append(r["asg"])
+        if large:
+            out = []
+            keep_ids = {t["id"] for t in templates}
+            for tid, pl in payload.items():
+                if pl.get("unsupported") or tid not in keep_ids:
+                    continue
+                p, syms = pl["p"], pl["syms"]
+                A = sorted(asg.get(tid, []))
+                if not A:
+                    continue
+                cols = [np.array([a[j] for a in A], dtype=np.float32) for j in range(len(syms))]
+                ev = lambda f: np.broadcast_to(np.asarray(f(*cols), dtype=np.float64), (len(A),))
+                valid = np.ones(len(A), dtype=bool)
+                for group in ("compiled_per_memory_usage_df", "compiled_usage_df"):
+                    for key, f in p[group].items():
+                        valid &= ev(f) <= 1
+                tot = {}
+                for key, f in p["compiled_df"].items():
+                    if key.startswith("Total<SEP>"):
+                        tot[key.split("<SEP>")[1]] = ev(f)
+                energy = tot.get("energy")
+                if energy is None:
+                    energy = tot.get("dynamic_energy", 0) + tot.get("leak_energy", 0)
+                vec = {"energy": np.asarray(energy, dtype=np.float64) + np.zeros(len(A)), "latency": tot.get("latency")}
+                df = tables.get(id(p["job"]))
+                rows = []
+                if df is not None:
+                    for r in range(len(df)):
+                        rows.append({c: mc._x(df[c].iloc[r]) for c in df.columns if c.startswith("Total<SEP>")})
+                idx = np.nonzero(valid)[0]
+                cands, first = {}, {}
+                for i_ in idx:
+                    key = tuple(float(vec[c][i_]) for c in large["cols"] if vec.get(c) is not None)
+                    if key not in cands:
+                        cands[key] = 1
+                        first[key] = A[int(i_)]
+                out.append({"id": tid, "nodes": pl["nodes"], "syms": syms, "n_assignments": len(A), "n_valid": int(valid.sum()),
+                            "cands": [[mc._x(x) for x in k] for k in cands], "cand_assignment": [first[k] for k in cands],
+                            "table": rows, "n_enumerated_by_code": int(len(p["choices_enumerated"]))})
+            return {"templates": out, "tlc_states": states, "tlc_generated": gen, "n_templates": len(payload), "n_big": n_big}
         out = []
         for tid, pl in payload.items():
             if pl.get("unsupported"):
@@ -148,11 +218,11 @@ def _worker(args):
         return {"exception": "%s: %s" % (type(e).__name__, e), "traceback": traceback.format_exc()[-3000:]}
 
 
-def collect(ck, worlds, metrics, knobs=None, nproc=8, preludes=None):
+def collect(ck, worlds, metrics, knobs=None, nproc=8, preludes=None, large=None):
     d = os.path.join(ck.work, "tiles")
     preludes = preludes or [None] * len(worlds)
     with ProcessPoolExecutor(nproc) as ex:
-        outs = list(ex.map(_worker, [(w, metrics, knobs, d, q) for w, q in zip(worlds, preludes)]))
+        outs = list(ex.map(_worker, [(w, metrics, knobs, d, q, large) for w, q in zip(worlds, preludes)]))
     for o in outs:
         ck.evaluations += 1
         if "exception" in o:
